@@ -13,12 +13,48 @@ COMMON_NOTE = ("Trusted base: go/types + go/ssa + VTA call graph (x/tools v0.29.
 
 # id -> (technique, text, design_ref)
 CLAIMS = {
+ "C11": ("writer/reader agreement: codec-sequence extraction, header-layout tables, exhaustive evaluation of extracted threshold predicates, dominance rules",
+         "Decides 'the writer's and the reader's tables agree': record and hint codecs have identical field sequences, widths, signedness and fixed prefix "
+         "(CD1); chunk writer and decoder use the same header layout, tiling [0,7), checksum over everything after the sum (CD2); the writer's pad "
+         "predicate and the sequential reader's skip predicate have equal truth sets over the whole domain [0,32768) (CD3, exhaustive constant folding of "
+         "the extracted formulas); payload fits the 16-bit length field (CD5); every writing DataFile method advances the logical size on success (CD7); "
+         "one Write call per append (WR1); writer emits exactly the declared chunk types and both readers stop on the same set (CT); clean EOF and decode "
+         "window (BD2, BD4). The round trip over all (offset,length) pairs is arithmetic and is not decided (no solver).", "3/C11, 2.6"),
+ "C12": ("dominating-guard facts (bounds, sign), CRC-gating dominance, who-may-call, per-property error-discipline (PS8)",
+         "Decides: in the pre-checksum decoder every access to the input is dominated by a length guard and the stored-length-derived bound cannot wrap "
+         "(BD1); unsigned conversion of fileSize-offset is guarded inside the loop in both readers (BD2); payload leaves the decoder only on the "
+         "checksum-equal edge, the checksum covers input[4:end], ReadWriter.Read is invoked only by the chunk readers which decode what they read (BD3); "
+         "the decoder sees only the bytes just read (BD4); errors of every call that reaches a read are propagated, never swallowed (PS8). Value equality "
+         "under corruption and content that passes CRC-32 are not decided.", "3/C12, 2.7"),
  "C13": ("path-sensitive typestate (clean/dirty) over SSA CFGs with callee summaries, error facts and option specialisation",
          "For every path of Put/Delete (SyncStrategy=Always and =Threshold), Batch.Commit (Sync batch), DB.Sync, DB.Close and each ReadWriter "
          "implementation's Sync/Close: every success return is reached only after the written bytes passed an OS durability primitive "
          "((*os.File).Sync / mmap Flush), the threshold counter is increased by every write, reset only after a flush and compared with "
          "BytesPerSync before returning, and the active-file field is never replaced while dirty. Exhaustive over paths and implementations; "
          "this is the whole mechanism of the property except the OS contract.", "3/C13, 2.3"),
+ "C01": ("value-provenance (def-use over SSA through extracts, phis, local cells, closure parameters) + path typestate",
+         "Decides the structural mechanism 'append then point the index at that position': at every ShardedIndex.Put of the engine (Put, batch flush, "
+         "replay, hint load) the position is the one returned by the appending / flushing / decoding call made for the record carrying exactly that key "
+         "(VF1); a successful tombstone append in Delete is always followed by the index delete of the same key (PS-DEL); positional reads of the DB API "
+         "dispatch on pos.Fid (VF2); every append is preceded by the size check with rotation on overflow (PS7); no active-file alias is used across a "
+         "rotation (VF7). Byte equality, chunk arithmetic and all operation sequences are not decided.", "3/C01, 2.4"),
+ "C02": ("value-provenance + dominance rules over the replay loop, batch tagging, pool invariant; guard facts for EOF; codec agreement",
+         "Decides necessary structural conditions of restart: every record a batch frames (staged and seal) carries the batch id (VF3), recovery applies "
+         "tagged records only on the Type==BatchFinished edge, removes the applied entry and keeps its pending map across files (VF3c/e/f), replayed "
+         "positions pair with their keys (VF1), pooled records are reset (POOL), both chunk readers guard the unsigned size conversion inside the loop "
+         "(BD2), reader errors abort Open (PS8), MMap.Close truncates to the logical size before closing (TR1), record/hint codecs agree (CD1). "
+         "Equality of the two dumps over histories and configurations is not decided.", "3/C02"),
+ "C04": ("value-provenance (batch-id tagging), path typestates (seal ordering, Sync-batch durability), stale-alias rule",
+         "Decides: staged records and the seal carry Batch.batchID before framing (VF3a/b); recovery applies tagged records only under their seal, "
+         "across files (VF3c/e/f); Merge untags rewritten records (VF3d); in Commit the staged flush precedes the seal and every writing success "
+         "return follows a successful seal write (PS6); with BatchOptions.Sync every success return of Commit is clean including the seal (PS1); the "
+         "seal goes to the current active file, not a stale alias (VF7); flush positions pair with staged records (VF1). All-or-nothing at every crash "
+         "instant and uniqueness of batch ids are not decided.", "3/C04"),
+ "C05": ("path typestate over Batch.Put (record type), lockset batch protocol (LK8), file-id dispatch, retention analysis of Batch parameters",
+         "Decides: Batch.Get's fallback read uses the file pos.Fid names (VF2); at every success return of Batch.Put the staged record is typed Normal "
+         "(fresh from the reset pool or re-typed after lookup) (BT1, POOL); every exported Batch method preserves the protocol invariant "
+         "(uncommitted <=> DB writer lock held) and a committed batch performs no effect (LK8/LK5); the staged slice only grows by append or is reset (SO1); "
+         "Batch.Put/Delete/Get do not retain caller slices in staged records (RT1). Equality with a layered reference map is not decided.", "3/C05"),
  "C08": ("lockset / lock-protocol analysis (path-sensitive, interprocedural summaries, fresh-vs-shared contexts) + write-once table rule",
          "Decides the lock discipline the property's mechanism list names, on every path: each index update reachable from Put/Delete/batch flush "
          "holds the database writer lock continuously since its log append (LK3); an index read that decides an append lies in the same writer "
@@ -32,10 +68,21 @@ CLAIMS = {
          "NewBatch/Commit preserve the protocol invariant and a committed batch performs no effect (LK5/LK8); lock order acyclic (LK6); shard "
          "lock modes (LK7); merge flag test-and-set in one section (LK4); ListKeys/Fold/NewIterator build their result from one snapshot (VF6). "
          "Races inside DataFile/MMap internals, all run-time panics and liveness are not decided.", "3/C09, 2.2"),
+ "C15": ("interprocedural retention / freshness analysis of byte slices (alias propagation through sub-slices, appends, stored-then-loaded fields, carrier objects; kill by later or deferred overwrite) into the btree/skiplist dependencies",
+         "Decides the ownership property almost whole: for every []byte parameter of DB.Put/Delete/Get and Batch.Put/Delete/Get no alias is stored into "
+         "memory that outlives the call, through library callees, all three index implementations and the dependency containers' SSA (RT1, RT3); every "
+         "[]byte returned by DB.Get, Batch.Get, Iterator.Value and passed to Fold's callback originates from an allocation made during the call (RT2); "
+         "pooled records are reset before reuse (POOL). Trusted: classification of append/copy/string conversions, body-less functions.", "3/C15, 2.5"),
  "C16": ("path-sensitive typestate (directory lock) over Open/Close incl. closures and defers; dominance of FS mutations by the held edge",
          "On every path of Open: the lock is taken with the non-blocking TryLock, every failure return is reached unlocked, the success return "
          "locked with the lock stored in the DB, the not-held edge returns ErrDatabaseIsUsing, and no file-system mutation primitive is reachable "
          "before the lock is held; Close releases on every return. Inter-process races and flock(2) semantics are trusted.", "3/C16, 2.3"),
+ "C17": ("accounting value-flow pairing at every index update + size-check typestate + guarded-by for the counters",
+         "Decides the pairing that keeps total-reclaim = sum of indexed sizes: at every index Put the new position's Size is charged to the total counter "
+         "and the superseded position to reclaim under its non-nil test; at every index Delete the tombstone is charged to both and the superseded "
+         "position to reclaim (VF4; Put, Delete, batch flush, replay, hint load); every append of a mutating entry point (incl. batch flush and seal) is "
+         "preceded by activeFile.Size()+estimate > DataFileSize with rotation on overflow (PS7); the counters are accessed under the lock (LK1). The "
+         "numeric identity itself is not decided.", "3/C17"),
 }
 
 checks = []
